@@ -16,6 +16,8 @@ pub struct LowOpts {
     pub newton_maxiter: Option<usize>,
     pub identity_mass: bool,
     pub dense: Option<bool>,
+    /// DOPRI5/DOP853 only: the stiffness test runs on every `stiff_test`-th accepted step
+    pub stiff_test: Option<usize>,
 }
 
 /// `h_rk4`: fixed step for RK4 (signed)
@@ -58,6 +60,7 @@ pub fn solve_low_opt<F: IVP, S: SolOut>(
             .build()
             .solve(f, x0, y0, xend, rtol.to_ivp(), atol.to_ivp(), solout),
         Meth::DOPRI5 => DOPRI5::builder()
+            .maybe_stiff_test(o.stiff_test)
             .maybe_first_step(o.first_step)
             .maybe_max_step(o.max_step)
             .maybe_max_steps(o.max_steps)
@@ -65,6 +68,7 @@ pub fn solve_low_opt<F: IVP, S: SolOut>(
             .build()
             .solve(f, x0, y0, xend, rtol.to_ivp(), atol.to_ivp(), solout),
         Meth::DOP853 => DOP853::builder()
+            .maybe_stiff_test(o.stiff_test)
             .maybe_first_step(o.first_step)
             .maybe_max_step(o.max_step)
             .maybe_max_steps(o.max_steps)
